@@ -79,7 +79,7 @@ class Lens(ScatteringTheory):
                                                          integral_r,
                                                          pol_angle)
 
-        particle_kz = positions[2, 0]  # we assume a fixed z
+        particle_kz = positions[2]  # one value per detector point
         fields *= self._compute_field_phase(particle_kz)
         return fields
 
